@@ -96,9 +96,13 @@ enum Hs { Ok, Garbage, WrongPath, NoUpgrade }
 struct Case {
     mode: Mode, hs: Hs, ctx: bool, pre: Vec<Hact>, reg: bool, post: Vec<Hact>, xh: Vec<Hact>,
     dpre: usize, dpost: usize, cause: Cause, phase: Phase, reqs: u64, flood: u64, conns: usize,
+    /// staggered: connection 0 ends by `cause` (while idle) and the others survive in `phase` until `cause2`
+    stag: bool, cause2: Cause,
 }
 impl Case {
-    fn token_cause(&self) -> bool { matches!(self.cause, Cause::Cancel | Cause::Abort) }
+    /// the cause that ends the connections that end together (all of them, or the survivors)
+    fn last_cause(&self) -> Cause { if self.stag { self.cause2 } else { self.cause } }
+    fn token_cause(&self) -> bool { matches!(self.last_cause(), Cause::Cancel | Cause::Abort) }
     /// the hooks that can run, in execution order
     fn effective(&self) -> Vec<Hact> {
         let mut v = self.pre.clone();
@@ -113,6 +117,10 @@ impl Case {
     }
 }
 
+fn parse_cause(s: &str) -> Option<Cause> {
+    Some(match s { "close" => Cause::Close, "loss" => Cause::Loss, "text" => Cause::Text, "big" => Cause::Big, "malformed" => Cause::Malformed, "hpanic" => Cause::HPanic, "cancel" => Cause::Cancel, "abort" => Cause::Abort, _ => return None })
+}
+
 fn parse_case(line: &str) -> Option<Case> {
     let f = fields(line);
     Some(Case {
@@ -121,9 +129,11 @@ fn parse_case(line: &str) -> Option<Case> {
         ctx: f.get("ctx")? == "1",
         pre: parse_hooks(f.get("pre")?)?, reg: f.get("reg")? == "1", post: parse_hooks(f.get("post")?)?, xh: parse_hooks(f.get("xh")?)?,
         dpre: ph(f.get("dpre")?)? as usize, dpost: ph(f.get("dpost")?)? as usize,
-        cause: match f.get("cause")?.as_str() { "close" => Cause::Close, "loss" => Cause::Loss, "text" => Cause::Text, "big" => Cause::Big, "malformed" => Cause::Malformed, "hpanic" => Cause::HPanic, "cancel" => Cause::Cancel, "abort" => Cause::Abort, _ => return None },
+        cause: parse_cause(f.get("cause")?)?,
         phase: match f.get("phase")?.as_str() { "idle" => Phase::Idle, "inline" => Phase::Inline, "offr" => Phase::OffR, "queue" => Phase::Queue, "hooks" => Phase::Hooks, _ => return None },
         reqs: ph(f.get("reqs")?)?, flood: ph(f.get("flood")?)?, conns: ph(f.get("conns")?)? as usize,
+        stag: f.get("stag").map(|s| s == "1").unwrap_or(false),
+        cause2: match f.get("cause2").map(|s| s.as_str()) { None | Some("-") => Cause::Close, Some(s) => parse_cause(s)? },
     })
 }
 
@@ -132,7 +142,11 @@ fn parse_case(line: &str) -> Option<Case> {
 #[derive(Clone, Debug)]
 enum Hev { C(usize, bool), K, D(usize, bool, usize) }
 
-struct Rec { evs: Mutex<Vec<(u64, Hev)>>, keys: Mutex<Vec<String>>, parked: AtomicBool, seen: AtomicBool }
+struct Rec { evs: Mutex<Vec<(u64, Hev)>>, keys: Mutex<Vec<String>>, parked: AtomicBool, seen: AtomicBool, client: AtomicUsize }
+impl Rec {
+    fn ndisc(&self) -> usize { self.evs.lock().unwrap().iter().filter(|(_, h)| matches!(h, Hev::D(..))).count() }
+    fn nconn(&self) -> usize { self.evs.lock().unwrap().iter().filter(|(_, h)| matches!(h, Hev::C(..))).count() }
+}
 
 struct World {
     seq: AtomicU64,
@@ -150,7 +164,7 @@ struct World {
 }
 impl World {
     fn rec(&self, id: u64) -> Arc<Rec> {
-        self.recs.lock().unwrap().entry(id).or_insert_with(|| Arc::new(Rec { evs: Mutex::new(vec![]), keys: Mutex::new(vec![]), parked: AtomicBool::new(false), seen: AtomicBool::new(false) })).clone()
+        self.recs.lock().unwrap().entry(id).or_insert_with(|| Arc::new(Rec { evs: Mutex::new(vec![]), keys: Mutex::new(vec![]), parked: AtomicBool::new(false), seen: AtomicBool::new(false), client: AtomicUsize::new(usize::MAX) })).clone()
     }
     fn push(&self, r: &Rec, h: Hev) {
         let mut g = r.evs.lock().unwrap();
@@ -205,9 +219,14 @@ fn disconnect_hook(w: &World, j: usize, id: PeerId) {
 type HErr = (ErrorCode, String);
 
 fn router(w: &Arc<World>) -> Router {
-    let (w1, w2, w3) = (w.clone(), w.clone(), w.clone());
+    let (w1, w2, w3, w4) = (w.clone(), w.clone(), w.clone(), w.clone());
     Router::new()
         .with_json("/k", |_| Ok(json!(1)))
+        // the first request of a raw peer tells the server which peer it is
+        .with_json_ctx("/who", move |ctx: &CallContext, v: Value| -> Result<Value, HErr> {
+            if let (Some(p), Some(i)) = (ctx.peer(), v.as_u64()) { w4.rec(p.peer_id().0).client.store(i as usize, SeqCst); }
+            Ok(json!(1))
+        })
         .with_json("/panic", |_| -> Result<Value, HErr> { panic!("c15 inline handler panic") })
         .with_json_ctx("/hold", move |ctx: &CallContext, v: Value| -> Result<Value, HErr> {
             w1.inline_in.fetch_add(1, SeqCst);
@@ -354,14 +373,14 @@ fn start_server(c: &Case, w: &Arc<World>) -> Result<ServerCtl, String> {
         Mode::Drain => {
             let (tx, rx) = tokio::sync::oneshot::channel::<()>();
             drain_tx = Some(tx);
-            let dt = if c.cause == Cause::Abort { Duration::from_millis(60) } else { Duration::from_secs(5) };
+            let dt = if c.last_cause() == Cause::Abort { Duration::from_millis(60) } else { Duration::from_secs(5) };
             tasks.push(tokio::spawn(async move { let _ = srv.serve_listener_with_graceful_drain(listener, "/repe", async move { let _ = rx.await; }, dt).await; }));
         }
         Mode::ServeConn | Mode::Adopt => {
             let shared = srv.into_shared();
             let (adopt, ctx) = (c.mode == Mode::Adopt, c.ctx);
             // the plain entry points when the token is never used, so both families are exercised
-            let with_cancel = c.cause == Cause::Cancel || (c.cause != Cause::Abort && c.conns % 2 == 0);
+            let with_cancel = c.stag || c.cause == Cause::Cancel || (c.cause != Cause::Abort && c.conns % 2 == 0);
             let (aborts, token) = (conn_aborts.clone(), token.clone());
             tasks.push(tokio::spawn(async move {
                 loop {
@@ -452,7 +471,26 @@ async fn tcp_connect(addr: std::net::SocketAddr, small: bool) -> Result<TcpStrea
     Ok(s)
 }
 
-async fn client(i: usize, c: Arc<Case>, addr: std::net::SocketAddr, b1: Arc<tokio::sync::Barrier>, b2: Arc<tokio::sync::Barrier>) -> (Vec<Wf>, Option<String>) {
+async fn do_cause(p: &mut Peer, cause: Cause, inline_phase: bool) {
+    match cause {
+        Cause::Close => p.send(WsMsg::Close(None)).await,
+        Cause::Loss => p.ws = None,
+        Cause::Text => p.send(WsMsg::Text("not binary".into())).await,
+        Cause::Big => p.send(WsMsg::Binary(vec![0u8; INBOUND_LIMIT + 40_000])).await,
+        Cause::Malformed => p.send(WsMsg::Binary(vec![0xAB; 10])).await,
+        Cause::HPanic => if !inline_phase { p.send(WsMsg::Binary(frame(0, 200, b"/panic", b"null"))).await },
+        Cause::Cancel | Cause::Abort => {}
+    }
+    p.drain(Duration::from_secs(4)).await;
+}
+
+struct ClientOut { wire: Vec<Wf>, err: Option<String>, answered: Option<bool> }
+
+/// One raw peer.  Barriers: 0 = phase entered, 1 = go (the causes that end all
+/// connections, or connection 0 of a staggered case); staggered cases only:
+/// 2 = connection 0 has ended and the settle period is over, 3 = the survivors
+/// have been probed, 4 = the survivors end.
+async fn client(i: usize, c: Arc<Case>, addr: std::net::SocketAddr, bars: Arc<Vec<tokio::sync::Barrier>>) -> ClientOut {
     let mut p = Peer { ws: None, wire: vec![], got_resp: false, err: None };
     match tcp_connect(addr, c.phase == Phase::Queue).await {
         Err(e) => p.err = Some(e),
@@ -462,13 +500,17 @@ async fn client(i: usize, c: Arc<Case>, addr: std::net::SocketAddr, b1: Arc<toki
             Err(_) => p.err = Some("timeout:ws-connect".into()),
         },
     }
+    let ender = c.stag && i == 0;
+    let phase = if ender { Phase::Idle } else { c.phase };
     let alive = !c.panic_reached() && c.phase != Phase::Hooks;
     if alive {
         for id in 1..=c.reqs {
-            p.send(WsMsg::Binary(frame(0, id, b"/k", b"null"))).await;
+            // the first request tells the server which raw peer this connection belongs to
+            let f = if id == 1 { frame(0, id, b"/who", i.to_string().as_bytes()) } else { frame(0, id, b"/k", b"null") };
+            p.send(WsMsg::Binary(f)).await;
             if !p.until_response(T_CONN).await && p.err.is_none() { p.err = Some(format!("no-response:{id}")); }
         }
-        match c.phase {
+        match phase {
             Phase::Inline => p.send(WsMsg::Binary(frame(0, 100, b"/hold", if c.cause == Cause::HPanic { b"\"p\"" } else { b"null" }))).await,
             Phase::OffR => p.send(WsMsg::Binary(frame(0, 100, b"/park", b"null"))).await,
             Phase::Queue => p.send(WsMsg::Binary(frame(0, 100, b"/flood", b"null"))).await,
@@ -478,21 +520,40 @@ async fn client(i: usize, c: Arc<Case>, addr: std::net::SocketAddr, b1: Arc<toki
         // a connect hook panics: the connection dies on its own
         p.drain(Duration::from_millis(1500)).await;
     }
-    b1.wait().await;
-    b2.wait().await;
-    if alive || c.phase == Phase::Hooks {
-        match c.cause {
-            Cause::Close => p.send(WsMsg::Close(None)).await,
-            Cause::Loss => p.ws = None,
-            Cause::Text => p.send(WsMsg::Text("not binary".into())).await,
-            Cause::Big => p.send(WsMsg::Binary(vec![0u8; INBOUND_LIMIT + 40_000])).await,
-            Cause::Malformed => p.send(WsMsg::Binary(vec![0xAB; 10])).await,
-            Cause::HPanic => if c.phase != Phase::Inline { p.send(WsMsg::Binary(frame(0, 200, b"/panic", b"null"))).await },
-            Cause::Cancel | Cause::Abort => {}
+    bars[0].wait().await;
+    bars[1].wait().await;
+    let mut answered = None;
+    if c.stag {
+        if ender { do_cause(&mut p, c.cause, false).await; }
+        bars[2].wait().await;
+        if !ender {
+            p.send(WsMsg::Binary(frame(0, 300, b"/k", b"null"))).await;
+            answered = Some(p.until_response(Duration::from_secs(3)).await);
         }
-        p.drain(Duration::from_secs(4)).await;
+        bars[3].wait().await;
+        bars[4].wait().await;
+        if !ender { do_cause(&mut p, c.cause2, false).await; }
+    } else if alive || c.phase == Phase::Hooks {
+        do_cause(&mut p, c.cause, c.phase == Phase::Inline).await;
     }
-    (p.wire, p.err)
+    ClientOut { wire: p.wire, err: p.err, answered }
+}
+
+/// a connection opened while the survivors are still up: its connect hooks run and it is served
+async fn fresh_connection(c: &Case, w: &Arc<World>, addr: std::net::SocketAddr, ndisc: usize) -> (bool, Option<u64>) {
+    let before: Vec<u64> = w.recs.lock().unwrap().keys().cloned().collect();
+    let Ok(stream) = tcp_connect(addr, false).await else { return (false, None) };
+    let Ok(Ok((ws, _))) = tokio::time::timeout(T_CONN, tt::client_async(format!("ws://{addr}/repe?c=new"), stream)).await else { return (false, None) };
+    let mut p = Peer { ws: Some(ws), wire: vec![], got_resp: false, err: None };
+    p.send(WsMsg::Binary(frame(0, 1, b"/k", b"null"))).await;
+    let answered = p.until_response(Duration::from_secs(3)).await;
+    p.send(WsMsg::Close(None)).await;
+    p.drain(Duration::from_secs(3)).await;
+    // its record: the one that did not exist before (there is always at least one disconnect hook)
+    wait_until(T_DISC, || w.recs.lock().unwrap().iter().any(|(k, r)| !before.contains(k) && r.ndisc() >= ndisc)).await;
+    let new: Vec<(u64, Arc<Rec>)> = w.recs.lock().unwrap().iter().filter(|(k, _)| !before.contains(k)).map(|(k, r)| (*k, r.clone())).collect();
+    let hooks_ok = match new.as_slice() { [(_, r)] => r.nconn() == c.effective().len() && r.ndisc() == ndisc, _ => false };
+    (answered && hooks_ok, new.first().map(|(k, _)| *k))
 }
 
 async fn bad_client(kind: Hs, addr: std::net::SocketAddr) -> Option<String> {
@@ -546,6 +607,7 @@ async fn run_async(c: Case) -> Result<String, String> {
     if c.mode == Mode::Listener && c.token_cause() { return Err("badcase:listener-token-cause".into()); }
     if c.hs != Hs::Ok && c.mode == Mode::Adopt { return Err("badcase:adopt-handshake".into()); }
     if c.phase == Phase::Hooks && !c.token_cause() { return Err("badcase:hooks-phase-cause".into()); }
+    if c.stag && (c.conns < 2 || c.hs != Hs::Ok || c.panic_reached() || !matches!(c.phase, Phase::Idle | Phase::OffR) || matches!(c.cause, Cause::Cancel | Cause::Abort) || c.reqs == 0) { return Err("badcase:staggered".into()); }
     let w = Arc::new(World {
         seq: AtomicU64::new(0), recs: Mutex::new(HashMap::new()), registry: PeerRegistry::new(), phase_hooks: c.phase == Phase::Hooks, flood: c.flood,
         trigger: AtomicBool::new(false), release: AtomicBool::new(false), stop: AtomicBool::new(false),
@@ -557,6 +619,8 @@ async fn run_async(c: Case) -> Result<String, String> {
     let ca = Arc::new(c.clone());
     let mut wires: Vec<Vec<Wf>> = vec![];
     let mut note: Option<String> = None;
+    let (mut mids, mut answers): (Vec<String>, Vec<Option<bool>>) = (vec![], vec![]);
+    let (mut tok, mut fresh, mut fresh_id): (Option<bool>, Option<bool>, Option<u64>) = (None, None, None);
     let expected_recs: usize;
     if c.hs != Hs::Ok {
         expected_recs = 0; let _ = expected_recs;
@@ -568,26 +632,51 @@ async fn run_async(c: Case) -> Result<String, String> {
         for _ in 0..n { wires.push(vec![]); }
     } else {
         expected_recs = n;
-        let b1 = Arc::new(tokio::sync::Barrier::new(n + 1));
-        let b2 = Arc::new(tokio::sync::Barrier::new(n + 1));
-        let js: Vec<_> = (0..n).map(|i| tokio::spawn(client(i, ca.clone(), ctl.addr, b1.clone(), b2.clone()))).collect();
-        if tokio::time::timeout(Duration::from_secs(20), b1.wait()).await.is_err() { w.stop.store(true, SeqCst); ctl.teardown(); return Err("timeout:barrier1".into()); }
+        let bars: Arc<Vec<tokio::sync::Barrier>> = Arc::new((0..5).map(|_| tokio::sync::Barrier::new(n + 1)).collect());
+        let js: Vec<_> = (0..n).map(|i| tokio::spawn(client(i, ca.clone(), ctl.addr, bars.clone()))).collect();
+        macro_rules! bar { ($k:expr, $d:expr) => { if tokio::time::timeout(Duration::from_secs($d), bars[$k].wait()).await.is_err() { w.stop.store(true, SeqCst); w.release.store(true, SeqCst); w.trigger.store(true, SeqCst); ctl.teardown(); return Err(format!("timeout:barrier{}", $k)); } } }
+        bar!(0, 20);
         let alive = !c.panic_reached() && c.phase != Phase::Hooks;
+        let inphase = if c.stag { n - 1 } else { n };
         let ok = match c.phase {
             _ if !alive && c.phase != Phase::Hooks => true,
             Phase::Idle => true,
-            Phase::Inline => wait_until(T_PHASE, || w.inline_in.load(SeqCst) >= n).await,
-            Phase::OffR => wait_until(T_PHASE, || w.parked.load(SeqCst) >= n).await,
-            Phase::Queue => wait_until(T_PHASE, || w.flooded.load(SeqCst) >= n).await,
+            Phase::Inline => wait_until(T_PHASE, || w.inline_in.load(SeqCst) >= inphase).await,
+            Phase::OffR => wait_until(T_PHASE, || w.parked.load(SeqCst) >= inphase).await,
+            Phase::Queue => wait_until(T_PHASE, || w.flooded.load(SeqCst) >= inphase).await,
             Phase::Hooks => if c.sleep_reached() { wait_until(T_PHASE, || w.sleepers.load(SeqCst) >= n).await } else { true },
         };
         if !ok { note = Some(format!("phase-not-reached:{}:{}:{}:{}", w.inline_in.load(SeqCst), w.parked.load(SeqCst), w.flooded.load(SeqCst), w.sleepers.load(SeqCst))); }
-        if c.token_cause() { ctl.fire(c.cause); }
+        let by_client = |w: &World, i: usize| -> Option<(u64, Arc<Rec>)> { w.recs.lock().unwrap().iter().find(|(_, r)| r.client.load(SeqCst) == i).map(|(k, r)| (*k, r.clone())) };
+        if c.stag {
+            // connection 0 ends alone; everything else stays as it is
+            bar!(1, 10);
+            if !wait_until(T_DISC, || by_client(&w, 0).is_some_and(|(_, r)| r.ndisc() >= ndisc)).await { note = Some("first-connection-did-not-end".into()); }
+            tokio::time::sleep(Duration::from_millis(300)).await;
+            bar!(2, 10);
+            bar!(3, 10);
+            // the survivors, before anything is done to them
+            for i in 1..n {
+                mids.push(match by_client(&w, i) {
+                    Some((id, r)) => {
+                        let seen = if r.parked.load(SeqCst) { if r.seen.load(SeqCst) { "1" } else { "0" } } else { "na" };
+                        format!("{}:{}:{}:{}", hx(r.ndisc() as u64), w.registry.get(PeerId(id)).is_some() as u8, hx(w.resolving(id, &r) as u64), seen)
+                    }
+                    None => "0:0:0:na".to_string(),
+                });
+            }
+            tok = Some(ctl.token.is_cancelled());
+            let (ok_new, new_id) = fresh_connection(&c, &w, ctl.addr, ndisc).await;
+            fresh = Some(ok_new);
+            fresh_id = new_id;
+        }
+        if c.token_cause() { ctl.fire(c.last_cause()); }
         w.trigger.store(true, SeqCst);
-        if tokio::time::timeout(Duration::from_secs(10), b2.wait()).await.is_err() { w.stop.store(true, SeqCst); ctl.teardown(); return Err("timeout:barrier2".into()); }
+        if c.stag { bar!(4, 10); } else { bar!(1, 10); }
         if c.phase == Phase::Inline { tokio::time::sleep(Duration::from_millis(40)).await; w.release.store(true, SeqCst); }
         // wait (generously) for every disconnect hook of every connection
-        let done = |w: &World| { let g = w.recs.lock().unwrap(); g.len() >= expected_recs && g.values().all(|r| r.evs.lock().unwrap().iter().filter(|(_, h)| matches!(h, Hev::D(..))).count() >= ndisc) };
+        let want = expected_recs + fresh_id.is_some() as usize;
+        let done = |w: &World| { let g = w.recs.lock().unwrap(); g.len() >= want && g.values().all(|r| r.ndisc() >= ndisc) };
         wait_until(T_DISC, || done(&w)).await;
         // the parked handlers get up to 2 s to observe the cancellation
         wait_until(T_SEEN, || w.recs.lock().unwrap().values().all(|r| !r.parked.load(SeqCst) || r.seen.load(SeqCst))).await;
@@ -597,17 +686,27 @@ async fn run_async(c: Case) -> Result<String, String> {
         w.release.store(true, SeqCst);
         for j in js {
             match tokio::time::timeout(Duration::from_secs(8), j).await {
-                Ok(Ok((wire, e))) => { wires.push(wire); if let (Some(e), None) = (e, &note) { if alive { note = Some(e); } } }
-                _ => { wires.push(vec![]); note = Some("client-join".into()); }
+                Ok(Ok(o)) => { wires.push(o.wire); answers.push(o.answered); if let (Some(e), None) = (o.err, &note) { if alive { note = Some(e); } } }
+                _ => { wires.push(vec![]); answers.push(None); note = Some("client-join".into()); }
             }
         }
     }
-    // observations
-    let recs: Vec<(u64, Arc<Rec>)> = { let g = w.recs.lock().unwrap(); let mut v: Vec<_> = g.iter().map(|(k, r)| (*k, r.clone())).collect(); v.sort_by_key(|(k, _)| *k); v };
+    // observations: a record whose raw peer is known is paired with that peer's frames
+    let mut recs: Vec<(u64, Arc<Rec>)> = { let g = w.recs.lock().unwrap(); g.iter().filter(|(k, _)| Some(**k) != fresh_id).map(|(k, r)| (*k, r.clone())).collect() };
+    recs.sort_by_key(|(k, r)| (r.client.load(SeqCst), *k));
+    let mut used = vec![false; wires.len()];
+    let mut paired: Vec<(Option<(u64, Arc<Rec>)>, Option<usize>)> = vec![];
+    for (id, r) in &recs {
+        let ci = r.client.load(SeqCst);
+        let wi = if ci < wires.len() && !used[ci] { Some(ci) } else { None };
+        if let Some(i) = wi { used[i] = true; }
+        paired.push((Some((*id, r.clone())), wi));
+    }
+    for pr in paired.iter_mut() { if pr.1.is_none() { if let Some(i) = used.iter().position(|u| !*u) { used[i] = true; pr.1 = Some(i); } } }
+    for i in 0..wires.len() { if !used[i] { paired.push((None, Some(i))); } }
     let mut out = format!("nrec={}", hx(recs.len() as u64));
-    let total = recs.len().max(wires.len());
-    for k in 0..total {
-        let (trace, after, seen) = match recs.get(k) {
+    for (k, (rec, wi)) in paired.iter().enumerate() {
+        let (trace, after, seen) = match rec {
             Some((id, r)) => {
                 let mut evs = r.evs.lock().unwrap().clone();
                 evs.sort_by_key(|(s, _)| *s);
@@ -618,8 +717,15 @@ async fn run_async(c: Case) -> Result<String, String> {
             }
             None => ("-".to_string(), "0:0".to_string(), "na"),
         };
-        let wire = wires.get(k).map(|w| fmt_wire(w)).unwrap_or_else(|| "-".into());
+        let wire = wi.map(|i| fmt_wire(&wires[i])).unwrap_or_else(|| "-".into());
         out.push_str(&format!(" c{k}={trace}/{after}/{wire}/{seen}"));
+    }
+    if c.stag {
+        for (k, m) in mids.iter().enumerate() {
+            let ans = answers.get(k + 1).cloned().flatten().unwrap_or(false);
+            out.push_str(&format!(" m{}={}:{}", k + 1, m, ans as u8));
+        }
+        out.push_str(&format!(" tok={} new={}", tok.unwrap_or(false) as u8, fresh.unwrap_or(false) as u8));
     }
     out.push_str(&format!(" reglen={}", hx(w.registry.len() as u64)));
     if let Some(e) = note { out.push_str(&format!(" note={}", clean(e))); }
@@ -666,9 +772,11 @@ fn gen_hooks(rng: &mut Rng) -> Hooks {
     Hooks { pre, reg, post, xh, dpre, dpost }
 }
 
-fn case_line(i: usize, mode: &str, hs: &str, ctx: bool, h: &Hooks, cause: &str, phase: &str, reqs: u64, flood: u64, conns: u64) -> String {
-    format!("i={i} mode={mode} hs={hs} ctx={} pre={} reg={} post={} xh={} dpre={} dpost={} cause={cause} phase={phase} reqs={} flood={} conns={}",
-        ctx as u8, fmt_hooks(&h.pre), h.reg as u8, fmt_hooks(&h.post), fmt_hooks(&h.xh), hx(h.dpre as u64), hx(h.dpost as u64), hx(reqs), hx(flood), hx(conns))
+fn case_line(i: usize, mode: &str, hs: &str, ctx: bool, h: &Hooks, cause: &str, phase: &str, reqs: u64, flood: u64, conns: u64) -> String { case_line2(i, mode, hs, ctx, h, cause, phase, reqs, flood, conns, None) }
+
+fn case_line2(i: usize, mode: &str, hs: &str, ctx: bool, h: &Hooks, cause: &str, phase: &str, reqs: u64, flood: u64, conns: u64, cause2: Option<&str>) -> String {
+    format!("i={i} mode={mode} hs={hs} ctx={} pre={} reg={} post={} xh={} dpre={} dpost={} cause={cause} phase={phase} reqs={} flood={} conns={} stag={} cause2={}",
+        ctx as u8, fmt_hooks(&h.pre), h.reg as u8, fmt_hooks(&h.post), fmt_hooks(&h.xh), hx(h.dpre as u64), hx(h.dpost as u64), hx(reqs), hx(flood), hx(conns), cause2.is_some() as u8, cause2.unwrap_or("-"))
 }
 
 fn gen_cases(seed: u64, thorough: bool) -> Vec<String> {
@@ -703,6 +811,19 @@ fn gen_cases(seed: u64, thorough: bool) -> Vec<String> {
                     let flood = if phase == "queue" { rng.range(24, 48) } else { 0 };
                     let conns = if phase == "queue" { conns_of(&mut rng).min(16) } else { conns_of(&mut rng) };
                     out.push(case_line(out.len(), mode, "ok", ctx, &h, cause, phase, reqs, flood, conns));
+                }
+            }
+        }
+        // staggered: connection 0 ends alone, its siblings under the same server / trigger must not notice
+        for mode in modes {
+            for phase in ["idle", "offr"] {
+                for cause in ["close", "loss", "hpanic", if round % 2 == 0 { "text" } else { "big" }] {
+                    let h = gen_hooks(&mut rng);
+                    let ctx = ctx_of(&mut rng, mode, &h);
+                    let enders: &[&str] = if mode == "l" { &["close", "loss", "malformed"] } else { &["close", "loss", "cancel", "abort"] };
+                    let cause2 = *rng.pick(enders);
+                    let k = rng.range(2, 4);
+                    out.push(case_line2(out.len(), mode, "ok", ctx, &h, cause, phase, rng.range(1, 2), 0, k, Some(cause2)));
                 }
             }
         }
